@@ -552,8 +552,17 @@ impl<T: PartialOrd + Copy> Interval<T> {
     {
         match self {
             Interval::TwoSided(low, high) => Interval::TwoSided(f_low(*low), f_high(*high)),
-            Interval::LowerOneSided(low) => Interval::UpperOneSided(f_low(*low)),
-            Interval::UpperOneSided(high) => Interval::LowerOneSided(f_high(*high)),
+            Interval::UpperOneSided(low) => Interval::UpperOneSided(f_low(*low)),
+            Interval::LowerOneSided(high) => Interval::LowerOneSided(f_high(*high)),
+        }
+    }
+
+    /// Exchange the roles of the bounds; used after applying a decreasing function to them.
+    fn mirrored(self) -> Self {
+        match self {
+            Interval::TwoSided(low, high) => Interval::TwoSided(high, low),
+            Interval::UpperOneSided(low) => Interval::LowerOneSided(low),
+            Interval::LowerOneSided(high) => Interval::UpperOneSided(high),
         }
     }
 
@@ -643,19 +652,29 @@ where
     }
 }
 
-impl<F: Mul<F, Output = F> + PartialOrd + Copy> Mul<F> for Interval<F> {
+impl<F: Mul<F, Output = F> + PartialOrd + Copy + num_traits::Zero> Mul<F> for Interval<F> {
     type Output = Self;
 
     fn mul(self, rhs: F) -> Self::Output {
-        self.applied_both(|x| x * rhs)
+        let scaled = self.applied_both(|x| x * rhs);
+        if rhs < F::zero() {
+            scaled.mirrored()
+        } else {
+            scaled
+        }
     }
 }
 
-impl<F: Div<F, Output = F> + PartialOrd + Copy> Div<F> for Interval<F> {
+impl<F: Div<F, Output = F> + PartialOrd + Copy + num_traits::Zero> Div<F> for Interval<F> {
     type Output = Self;
 
     fn div(self, rhs: F) -> Self::Output {
-        self.applied_both(|x| x / rhs)
+        let scaled = self.applied_both(|x| x / rhs);
+        if rhs < F::zero() {
+            scaled.mirrored()
+        } else {
+            scaled
+        }
     }
 }
 
@@ -679,7 +698,7 @@ impl<F: Neg<Output = F> + PartialOrd + Copy> Neg for Interval<F> {
     type Output = Self;
 
     fn neg(self) -> Self::Output {
-        self.applied_both(|x| -x)
+        self.applied_both(|x| -x).mirrored()
     }
 }
 
